@@ -106,6 +106,16 @@ var noisyExprs = []string{
 	`count(foo) by (job) > 0 or vector(1) < 0`,
 	`sum(rate(http_requests_total[30s])) by (job) > 10`,
 	`avg_over_time(foo[10m]) < 1`,
+	// smelly regexp selectors (promql/regexp, governed by check "promql/regexp" { smelly })
+	`foo{job=~"foo.+"} > 0`,
+	`rate(errors_total{instance=~"node.+"}[5m]) > 0`,
+	`sum(bar{a=~".+x"}) by (job) > 1`,
+	// users of recording rules of the vocabulary (rule/dependency when those are removed)
+	`foo:sum > 10`,
+	`bar:count == 0`,
+	`instance:up:sum < 1`,
+	`job:foo:rate5m / baz_agg > 1`,
+	`colo:job:errors > 0`,
 }
 
 var brokenExprs = []string{
@@ -213,7 +223,7 @@ func bulkFile(n, k, variant int) string {
 		}
 	}
 	b.WriteString("  rules:\n")
-	exprs := []string{"up == 0", "sum(foo) by (job) > 0", "foo", "rate(errors_total[5m]) > 1"}
+	exprs := []string{"up == 0", "sum(foo) by (job) > 0", "foo", "rate(errors_total[5m]) > 1", `foo{job=~"api.+"} > 0`}
 	for i := 0; i < n; i++ {
 		name := fmt.Sprintf("Bulk%03d", i)
 		fmt.Fprintf(&b, "  - alert: %s\n    expr: %s\n", name, exprs[(i+variant)%len(exprs)])
@@ -531,6 +541,22 @@ func GenConfig(t *rapid.T, online bool, minBlocks int, commentPerKind bool) (str
 			sb.WriteString("prometheus \"prom2\" {\n  uri = \"" + PromURIAltPlaceholder + "\"\n  timeout = \"30s\"\n  rateLimit = 100000\n}\n")
 			tags = append(tags, "online2")
 		}
+	}
+	// check settings blocks: decoded once and shared by every worker
+	switch rapid.IntRange(0, 5).Draw(t, "cfg.regexpSettings") {
+	case 0, 1:
+		sb.WriteString("check \"promql/regexp\" {\n  smelly = false\n}\n")
+		tags = append(tags, "regexp-smelly=false")
+	case 2:
+		sb.WriteString("check \"promql/regexp\" {\n  smelly = true\n}\n")
+		tags = append(tags, "regexp-smelly=true")
+	case 3:
+		sb.WriteString("check \"promql/regexp\" {}\n")
+		tags = append(tags, "regexp-settings")
+	}
+	if rapid.IntRange(0, 2).Draw(t, "cfg.seriesSettings") == 0 {
+		sb.WriteString("check \"promql/series\" {\n  lookbackRange = \"5d\"\n  lookbackStep = \"1m\"\n  ignoreMetrics = [\".*_total\", \"ba.\"]\n}\n")
+		tags = append(tags, "series-settings")
 	}
 	nb := rapid.IntRange(min(minBlocks, 4), 4).Draw(t, "cfg.nrules")
 	for i := 0; i < nb; i++ {
